@@ -25,7 +25,7 @@ RULE = ("programs = seeded G-schema sets (packages of depth 0..3, nested types, 
         "field: number, proto type, cardinality (singular / optional / repeated / map with key+value kinds), oneof group, "
         "wrapper / Timestamp / Duration mapping, resolved Python type, enum member numbers. Separately the bundled "
         "descriptor / plugin / well-known-type classes are compared with descriptor_pb2 / plugin_pb2 / the WKT descriptors "
-        "of google.protobuf on every shared field (finite, enumerated completely). disagreements_checked = field + enum "
+        "of google.protobuf on every shared field (finite, enumerated completely). Programs also include single-feature packages, multi-file extra sets (each package additionally imported first in a fresh interpreter; protoc invoked with all files and with only the root files on its command line); bundled classes are compared by field name as well as by number. disagreements_checked = field + enum "
         "member comparisons.")
 ASSUMPTIONS = [
     "a schema protoc itself rejects is a generator bug: discarded and counted (more than 2% discards => inconclusive)",
